@@ -36,6 +36,18 @@ SPECIALS = [float('nan'), float('inf'), float('-inf'), -0.0, 5e-324, 1e308, -1e3
 # ---------------------------------------------------------------------------
 # deep, bit-level snapshot
 
+def _raw(arr):
+    '''raw bytes of an array / numpy scalar; for extended-precision floats (80-bit numbers stored in 12 or
+    16 bytes) only the 10 significant bytes of each item: the padding bytes are not part of the value and
+    are not initialised'''
+    arr = np.asarray(arr)
+    if arr.dtype.kind in 'fc' and arr.dtype.itemsize in (12, 16, 24, 32) and np.finfo(arr.dtype).nmant == 63:
+        item = 16 if arr.dtype.itemsize in (16, 32) else 12
+        by = np.frombuffer(np.ascontiguousarray(arr).tobytes(), dtype=np.uint8).reshape(-1, item)
+        return by[:, :10].tobytes()
+    return arr.tobytes()
+
+
 def snap(obj, memo=None):
     '''Nested tuples that identify the state of `obj` bit for bit: array
     buffers, dict key order (defaultdict contents and factory included),
@@ -58,10 +70,10 @@ def snap(obj, memo=None):
             return ('ndo', obj.shape, tuple(snap(x, memo) for x in obj.flat))
         # raw buffer (in the array's own dtype and byte order) AND logical values (native byte order)
         native = obj.astype(obj.dtype.newbyteorder('='), copy=False) if obj.dtype.byteorder in '<>' else obj
-        return ('nd', obj.dtype.str, obj.shape, obj.tobytes(), np.ascontiguousarray(native).tobytes(),
+        return ('nd', obj.dtype.str, obj.shape, _raw(obj), _raw(np.ascontiguousarray(native)),
                 bool(obj.flags.writeable))
     if isinstance(obj, np.generic):
-        return ('ng', obj.dtype.str, obj.tobytes())
+        return ('ng', obj.dtype.str, _raw(obj))
     key = id(obj)
     if key in memo:
         return ('ref', memo[key])
